@@ -115,4 +115,50 @@ def cmdF06 (t : Tok) : String :=
   showFrag ((if AdjN.repsSafe Tok.isBoundaryT t then [] else ["K-RULE-REP-NESTED"]) ++
             (if AdjN.onceOpen Tok.isBoundaryT t then [] else ["K-RULE-ONCE-REP"]))
 
+/-! `NV <op> <lhs> <rhs>`: one operation of the variance algebra on canonical text forms (the crate's
+`verif_variance_op` hook): `inv:N`, `unb`, `lower:N`, `upper:N`, `both:LOWER:EXTENT`. -/
+
+def parseNVarFields (fs : List String) : Option (Sum NVar Unit) :=
+  match fs with
+  | ["inv", n] => n.toNat?.map (fun k => .inl (.inv k))
+  | ["unb"] => some (.inl .unb)
+  | ["lower", n] => n.toNat?.bind (fun k => if k == 0 then none else some (.inl (.bnd (.lower k))))
+  | ["upper", n] => n.toNat?.bind (fun k => if k == 0 then none else some (.inl (.bnd (.upper k))))
+  | ["both", a, b] => match a.toNat?, b.toNat? with
+    | some x, some y => if x == 0 || y == 0 then none else some (.inl (.bnd (.both x y)))
+    | _, _ => none
+  | _ => none
+
+def parseNVar (s : String) : Option NVar :=
+  match parseNVarFields (s.splitOn ":") with
+  | some (.inl v) => some v
+  | _ => none
+
+def NVar.toRange : NVar → NRange
+  | .inv n => .inv n
+  | .unb => .var .unbounded
+  | .bnd r => .var (.bounded r)
+
+def showNVar : NVar → String
+  | .inv n => s!"inv:{n}"
+  | .unb => "unb"
+  | .bnd (.lower n) => s!"lower:{n}"
+  | .bnd (.upper n) => s!"upper:{n}"
+  | .bnd (.both a b) => s!"both:{a}:{b}"
+
+def showPN : P NVar → String
+  | .ok v => showNVar v
+  | .error e => "panic:" ++ e
+
+def cmdNV (op l r : String) : String :=
+  match parseNVar l, parseNVar r with
+  | some a, some b =>
+    match op with
+    | "conj" => showPN (a.conj b)
+    | "disj" => showPN (a.disj b)
+    | "prod" => showPN (a.prod b.toRange)
+    | "upper" => toString a.hasUpper
+    | _ => "bad-op"
+  | _, _ => "bad-args"
+
 end Wax
